@@ -352,6 +352,69 @@ def run(prog, rep, tier):
     R126 = rep.rule("R12.6", "a partial line found by the block-bounded line search can extend to the end of the block")
     partial_extent(prog, rep, R126)
 
+    # ------------------------------------------------------------ R12.8 the datetime search sees the same bytes however many blocks they span
+    # find_datetime_in_line asks the line for the byte range a pattern wants; the line answers with
+    # one, two or many pieces depending on where block boundaries fall.  For the answer not to depend
+    # on the block size the two-piece arm has to join *both* pieces on every path (and the many-piece
+    # arm every piece).  A shortcut that searches the first piece alone when it is "long enough" makes
+    # a timestamp that straddles the boundary unreadable at that block size only.
+    R128 = rep.rule("R12.8", "the two-block arm of the datetime search joins both pieces on every path")
+    fdb = prog.body("s4lib::readers::syslinereader::SyslineReader::find_datetime_in_line")
+    heads = {}
+    for bb in sorted(fdb.live):
+        for st in fdb.stmts(bb):
+            if st[0] == "=" and st[2][0] == "use" and st[2][1][0] != "k":
+                for e in st[2][1][1][1:]:
+                    if isinstance(e, list) and e[0] == "as" and e[1] in ("SinglePtr", "DoublePtr", "MultiPtr"):
+                        heads.setdefault(e[1], bb)
+    if set(heads) != {"SinglePtr", "DoublePtr", "MultiPtr"}:
+        raise CheckerError("find_datetime_in_line: LinePartPtrs arms not found (%s)" % sorted(heads))
+    exts = {"0": set(), "1": set()}
+    for c in fdb.live_calls():
+        if c.d.split("::")[-1] == "extend_from_slice" and len(c.args) > 1:
+            for o_ in fdb.origins(c.args[1]):
+                if o_[0] == "call" and "as DoublePtr" in str(o_[3]):
+                    exts[str(o_[3][1])].add(c.bb)
+    disp = set(fdb.pred[heads["DoublePtr"]]) | set(fdb.pred[heads["SinglePtr"]])   # the dispatch on the number of pieces (inside the pattern loop)
+    join = (set(fdb.reachable(heads["DoublePtr"], disp)) - {heads["DoublePtr"]}) & (set(fdb.reachable(heads["SinglePtr"], disp)) - {heads["SinglePtr"]})
+    # unwind/cleanup blocks are shared by all arms too; only blocks from which the function can still return count
+    join = {j for j in join if any(fdb.term(x)[0] == "ret" for x in fdb.reachable(j))}
+    missing = []
+    for k_ in ("0", "1"):
+        if not exts[k_] or (join & set(fdb.reachable(heads["DoublePtr"], exts[k_] | disp))):
+            missing.append("first" if k_ == "0" else "second")
+    rep.examined(R128, fdb.path + "|double-piece-arm", sample={"arm_head": heads["DoublePtr"], "appends_of_first_piece": sorted(exts["0"]), "appends_of_second_piece": sorted(exts["1"]), "pieces_that_can_be_skipped": missing})
+    if not join:
+        raise CheckerError("find_datetime_in_line: the arms do not join")
+    if missing:
+        rep.violation(R128, fdb.path + "|double-piece-arm|piece-skipped", "find_datetime_in_line: when the requested bytes span two blocks there is a path that does not append the %s piece before the search; "
+                      "a timestamp that straddles the block boundary is then not found at that block size, the line is glued to the previous message, and the output differs from the default block size" % missing[0])
+
+    # ------------------------------------------------------------ R12.9 a known preceding line always short-cuts the backward search
+    # find_line looks for the start of a line by scanning backwards, possibly into the previous block.
+    # When the preceding line is already stored (`get_linep(fileoffset - 1)`) the scan is skipped.  For
+    # streamed (compressed) files that is not just faster: the previous block has been dropped, so a
+    # backward scan from a line that begins exactly on a block boundary ends the file.  The stored-line
+    # shortcut must therefore not be weakened by a condition on where in the block the line begins
+    # (an `Option` adapter between the lookup and its test).
+    R129 = rep.rule("R12.9", "the result of the stored-line lookup in find_line is tested as it is (no filter on the position in the block)")
+    flb = prog.body(LR + "::find_line") if "LR" in globals() else prog.body("s4lib::readers::linereader::LineReader::find_line")
+    gl = [c for c in flb.live_calls() if c.d.endswith("LineReader::get_linep")]
+    if not gl:
+        raise CheckerError("find_line: no get_linep call")
+    weakened = []
+    for fb_ in [flb] + list(prog.closures_in(flb.path)):
+        pass
+    for c in flb.live_calls():
+        nm_ = (c.o or c.d).split("::")[-1]
+        if nm_ in ("filter", "and_then", "take_if", "xor", "zip", "filter_map") and "Option" in (c.callee.get("self") or c.d) and c.args:
+            if any(o_[0] == "call" and any(g.bb == o_[1] for g in gl) for o_ in flb.origins(c.args[0])):
+                weakened.append((nm_, c.line))
+    rep.examined(R129, flb.path + "|stored-line-shortcut", sample={"stored_line_lookups": len(gl), "adapters_on_the_lookup_result": weakened})
+    if weakened:
+        rep.violation(R129, flb.path + "|stored-line-shortcut|weakened", "find_line (line %d) passes the stored preceding line through Option::%s() before testing it; when the condition fails the function scans backwards into the previous block, "
+                      "which a streamed .gz/.bz2/.lz4 reader has already dropped - every line from one that begins on a block boundary on is silently missing, at that block size only" % (weakened[0][1], weakened[0][0]))
+
     return rep.finish(
         "Static necessary-condition check: (R12.1) no value derived from the length of block zero may select the count that decides file "
         "acceptance (taint from Vec<u8>::len to a RangeMap lookup key to the deciding comparison) - fires today at blockzero_analysis_lines and "
